@@ -287,7 +287,8 @@ def part_h(chk, thorough):
     brackets = "[" * 600 + "1" + "]" * 600
     progs = [("Display", '#[display("{}", %s)] pub struct S(pub i32);' % deep), ("Display", '#[display("{}", %s)] pub struct S(pub i32);' % bangs), ("Debug", '#[debug("{} {}", _0, %s)] pub struct S(pub i32);' % deep),
              ("Display", 'pub enum S { #[display("{x} {}", %s)] A { x: u8 }, #[display("b")] B }' % refs), ("LowerHex", '#[lower_hex("{:?}", %s)] pub struct S;' % brackets),
-             ("Debug", 'pub struct S(#[debug("{}", %s)] pub i32);' % bangs)]
+             ("Debug", 'pub struct S(#[debug("{}", %s)] pub i32);' % bangs),
+             ("Display", '#[display("{}", { let _f = %s a; 0 })] pub struct S;' % ("|a: u8| " * 700)), ("Display", '#[display("{}", %s)] pub struct S;' % ("x = " * 1500 + "1"))]
     eng = CompileEngine("C18H", mode="check", per_bin=1)
     eng._write_crate()
     for i, (d, item) in enumerate(progs):
@@ -305,7 +306,7 @@ def part_h(chk, thorough):
             chk.outcome("deep-nesting-compiles")
         else:
             chk.outcome("deep-nesting-diagnosed")
-    chk.part("h_deep_nesting", programs=len(progs), shapes=["1000 nested parentheses", "3000 prefix `!`", "2000 prefix `&`", "600 nested brackets"], oracle="one rustc process per program: it must end by itself (ok or diagnostics), not by a signal")
+    chk.part("h_deep_nesting", programs=len(progs), shapes=["1000 nested parentheses", "3000 prefix `!`", "2000 prefix `&`", "600 nested brackets", "700 nested closures", "1500 chained assignments"], oracle="one rustc process per program: it must end by itself (ok or diagnostics), not by a signal")
 
 
 def part_g(chk, thorough):
